@@ -42,6 +42,13 @@ Theorem C05_log_is_own_writes : forall progs st tmo att evs, LogOk (run_from (in
 Proof. exact tx_log_is_own_writes. Qed.
 Print Assumptions C05_log_is_own_writes.
 
+(* ... and no transaction (token) ever issues more than one delete_many and one set_many: a block is committed at most once *)
+Theorem C05_commit_at_most_once : forall progs st tmo att evs tk,
+  let c := run_from (init progs st tmo att) evs in
+  (cnt WDelMany tk (wlog c) <= 1)%nat /\ (cnt WSetMany tk (wlog c) <= 1)%nat.
+Proof. exact tx_commit_at_most_once. Qed.
+Print Assumptions C05_commit_at_most_once.
+
 (* locks: two tasks holding the same lock key, each within the timeout it took it with, are the same task *)
 Theorem C05_lock_mutex : forall progs st tmo att evs i j x y lk d d',
   let c := run_from (init progs st tmo att) evs in
